@@ -249,7 +249,9 @@ def Desc.encodeWith (d : Desc) (z : List Nat) : List Nat :=
   (match d.plte with | some p => chunk "PLTE" p | none => []) ++
   (if d.anc.contains 'k' then chunk "bKGD" [0, 0] else []) ++
   (match d.trns with | some t => chunk "tRNS" t | none => []) ++
+  (if d.anc.contains 'e' then chunk "IDAT" [] else []) ++
   idatChunks (d.splits.length + 1) d.splits z false ++
+  (if d.anc.contains 'e' then chunk "IDAT" [] else []) ++
   (if d.anc.contains 't' then chunk "tEXt" (tagOf "Comment" ++ [0] ++ tagOf "c24") else []) ++
   chunk "IEND" [] ++
   (if d.anc.contains 'z' then tagOf "trailing" else [])
